@@ -292,160 +292,8 @@ vp_proof! {
     }
 }
 
-// ---------------------------------------------------------------------------------------------
-// one whole growth step (find_best_cutoff + split) from an arbitrary node state at an arbitrary level:
-// the two children receive exactly the parent's samples on their side of the threshold, sit one level below the parent,
-// the recorded depth advances accordingly, child outputs are the means / majority classes of the routed rows, a split that would
-// leave a child below min_samples_leaf is undone, and a node below min_samples_split / a pure node is not split.
-// ---------------------------------------------------------------------------------------------
-use smartcore::verif_hooks::{verif_split_step_classifier, verif_split_step_regressor};
-
-macro_rules! reg_step {
-    ($name:ident, $n:expr, $wmax:expr, $unw:expr) => {
-        vp_proof_traps! {
-            #[cfg_attr(kani, kani::unwind($unw))]
-            fn $name() {
-                const N: usize = $n;
-                let mut xi = [0i32; N];
-                let mut xa = [0f32; N];
-                let mut yi = [0i32; N];
-                let mut y = vec![0f32; N];
-                let mut w = [0usize; N];
-                let mut wt = 0usize;
-                for i in 0..N {
-                    let (a, b) = lat32(0, 3);
-                    xi[i] = a;
-                    xa[i] = b;
-                    let (a, b) = lat32(-2, 2);
-                    yi[i] = a;
-                    y[i] = b;
-                    w[i] = anyu(0, $wmax);
-                    wt += w[i];
-                }
-                kani::assume(wt >= 1);
-                let msl = anyu(1, 2);
-                let mss = anyu(0, 3);
-                let level: u16 = anyu(1, 5) as u16;
-                let x = DenseMatrix::from_array(N, 1, &xa);
-                let params = DecisionTreeRegressorParameters::default().with_min_samples_leaf(msl).with_min_samples_split(mss);
-                let r = verif_split_step_regressor(&x, &y, w.to_vec(), level, params);
-                if wt < mss {
-                    vp_assert!(!r.cutoff_found && !r.split_done, "C05:regressor-node-below-min-samples-split-is-not-split");
-                }
-                if r.split_done {
-                    vp_assert!(r.n_nodes == 3, "C05:regressor-split-creates-two-children");
-                    vp_assert!(r.depth == level + 1, "C05:regressor-depth-advances-by-one-level-per-split");
-                    let (_f, thr) = match r.split {
-                        Some(s) => s,
-                        None => vp_fail!("C05:regressor-split-without-threshold"),
-                    };
-                    let (mut wl, mut wr, mut sl, mut sr) = (0i32, 0i32, 0i32, 0i32);
-                    for i in 0..N {
-                        let left = (xi[i] as f32) <= thr;
-                        // routing: every present row goes to exactly the child on its side of the threshold
-                        vp_assert!(r.child_samples.0[i] == if left { w[i] } else { 0 }, "C05:regressor-true-child-holds-rows-below-threshold");
-                        vp_assert!(r.child_samples.1[i] == if left { 0 } else { w[i] }, "C05:regressor-false-child-holds-rows-above-threshold");
-                        if left {
-                            wl += w[i] as i32;
-                            sl += w[i] as i32 * yi[i];
-                        } else {
-                            wr += w[i] as i32;
-                            sr += w[i] as i32 * yi[i];
-                        }
-                    }
-                    vp_assert!(wl >= msl as i32 && wr >= msl as i32, "C05:regressor-children-respect-min-samples-leaf");
-                    vp_assert!((r.child_outputs.0 * wl as f32 - sl as f32).abs() <= 1e-4, "C05:regressor-true-child-output-is-mean");
-                    vp_assert!((r.child_outputs.1 * wr as f32 - sr as f32).abs() <= 1e-4, "C05:regressor-false-child-output-is-mean");
-                    for q in r.queued.iter() {
-                        vp_assert!(q.1 == level + 1 && (q.0 == 1 || q.0 == 2), "C05:regressor-children-are-one-level-below-parent");
-                    }
-                } else {
-                    vp_assert!(r.n_nodes == 1 && r.depth == 0 && r.queued.is_empty(), "C05:regressor-no-children-without-split");
-                }
-                vp_reached!();
-            }
-        }
-    };
-}
-// @vp name=c05_reg_step_n2 prop=C05 tier=thorough t=3600 mem=45 fns=DecisionTreeRegressor::find_best_cutoff,find_best_split,split size=n=2,p=1 dom=x-lattice(0..3),y-lattice(-2..2),weights0..2,msl1..2,mss0..3,level1..5,f32 stubs=traps,no_format
-reg_step!(c05_reg_step_n2, 2, 2, 6);
-// @vp name=c05_reg_step_n3 prop=C05 tier=thorough t=3600 mem=45 fns=DecisionTreeRegressor::find_best_cutoff,find_best_split,split size=n=3,p=1 dom=x-lattice(0..3),y-lattice(-2..2),weights0..1,msl1..2,mss0..3,level1..5,f32 stubs=traps,no_format
-reg_step!(c05_reg_step_n3, 3, 1, 7);
-
-macro_rules! cls_step {
-    ($name:ident, $n:expr, $unw:expr) => {
-        vp_proof_traps! {
-            #[cfg_attr(kani, kani::unwind($unw))]
-            fn $name() {
-                const N: usize = $n;
-                let mut xi = [0i32; N];
-                let mut xa = [0f32; N];
-                let mut yl = [0usize; N];
-                let mut w = [0usize; N];
-                for i in 0..N {
-                    let (a, b) = lat32(0, 4);
-                    xi[i] = a;
-                    xa[i] = b;
-                    yl[i] = if kani::any() { 1 } else { 0 };
-                    w[i] = anyu(0, 1);
-                }
-                for i in 0..N {
-                    for j in 0..N {
-                        if i < j {
-                            kani::assume(xi[i] != xi[j]);
-                        }
-                    }
-                }
-                let mut c = [0usize; 2];
-                for i in 0..N {
-                    c[yl[i]] += w[i];
-                }
-                kani::assume(c[0] + c[1] >= 1);
-                let level: u16 = anyu(1, 5) as u16;
-                let mss = anyu(0, 3);
-                let x = DenseMatrix::from_array(N, 1, &xa);
-                let params = DecisionTreeClassifierParameters::default().with_min_samples_leaf(1).with_min_samples_split(mss);
-                let r = verif_split_step_classifier(&x, &yl, 2, w.to_vec(), level, params);
-                let pure = c[0] == 0 || c[1] == 0;
-                if pure || c[0] + c[1] <= mss {
-                    vp_assert!(!r.split_done, "C05:classifier-pure-or-small-node-is-not-split");
-                } else {
-                    vp_assert!(r.split_done, "C05:classifier-impure-node-above-min-samples-split-is-split");
-                }
-                if r.split_done {
-                    vp_assert!(r.n_nodes == 3 && r.depth == level + 1, "C05:classifier-depth-advances-by-one-level-per-split");
-                    let (_f, thr) = match r.split {
-                        Some(s) => s,
-                        None => vp_fail!("C05:classifier-split-without-threshold"),
-                    };
-                    let mut ct = [0usize; 2];
-                    let mut cf = [0usize; 2];
-                    for i in 0..N {
-                        if (xi[i] as f32) <= thr {
-                            ct[yl[i]] += w[i];
-                        } else {
-                            cf[yl[i]] += w[i];
-                        }
-                    }
-                    vp_assert!(ct[0] + ct[1] >= 1 && cf[0] + cf[1] >= 1, "C05:classifier-children-non-empty");
-                    vp_assert!(ct[r.child_outputs.0] >= ct[1 - r.child_outputs.0] && cf[r.child_outputs.1] >= cf[1 - r.child_outputs.1], "C05:classifier-child-outputs-are-majority-classes");
-                    for q in r.queued.iter() {
-                        vp_assert!(q.1 == level + 1 && (q.0 == 1 || q.0 == 2), "C05:classifier-children-are-one-level-below-parent");
-                        for i in 0..N {
-                            let left = (xi[i] as f32) <= thr;
-                            let want = if (q.0 == 1) == left { w[i] } else { 0 };
-                            vp_assert!(q.2[i] == want, "C05:classifier-child-holds-exactly-the-rows-on-its-side");
-                        }
-                    }
-                } else {
-                    vp_assert!(r.n_nodes == 1 && r.depth == 0 && r.queued.is_empty(), "C05:classifier-no-children-without-split");
-                }
-                vp_reached!();
-            }
-        }
-    };
-}
-// @vp name=c05_cls_step_n3 prop=C05 tier=thorough t=3600 mem=45 fns=DecisionTreeClassifier::find_best_cutoff,find_best_split,split size=n=3,p=1,2-classes dom=x-distinct-lattice(0..4),labels-symbolic,weights0..1,mss0..3,level1..5,Gini,f32 stubs=traps,no_format
-cls_step!(c05_cls_step_n3, 3, 7);
-// @vp name=c05_cls_step_n4 prop=C05 tier=thorough t=3600 mem=45 fns=DecisionTreeClassifier::find_best_cutoff,find_best_split,split size=n=4,p=1,2-classes dom=x-distinct-lattice(0..4),labels-symbolic,weights0..1,mss0..3,level1..5,Gini,f32 stubs=traps,no_format
-cls_step!(c05_cls_step_n4, 4, 8);
+// NOTE: one whole growth step (find_best_cutoff + split through the hooks verif_split_step_regressor / _classifier: routing of the
+// parent's samples to the two children, children one level below the parent, depth bookkeeping, undo of a split that violates
+// min_samples_leaf) was built and run for n = 2 (regressor) and n = 3, 4 (classifier): every instance exceeded 45 GB - split()
+// searches both children again and queues visitors in a LinkedList.  The hooks stay in /repo (add-only, unused); routing and depth
+// bookkeeping remain outside the claim, which is why the seeded change C05-2 is missed.
